@@ -47,6 +47,85 @@ func pathsLeanBytes(s string) string {
 	return "[" + strings.Join(parts, ", ") + "]"
 }
 
+// dirStructureShape reads, from utils/structure.go, the shape facts the tree invariant of the model rests on
+// (a child is registered, and later looked up, under the very name its path is built from):
+//   - ChildDir indexes <recv>.Children only with its name parameter, never assigns to that parameter, and builds
+//     the child's Path as filepath.Join(<recv>.Path, <name parameter>);
+//   - ensure reads <recv>.Children exactly once, as <recv>.Children[<elements parameter>[0]].
+// Anything else yields false (the theorem over these definitions then no longer holds).
+func dirStructureShape() (keyIsName, pathJoinsName, ensureByElement bool) {
+	fset, f := parseFile("utils/structure.go")
+	recvName := func(fd *ast.FuncDecl) string {
+		if fd.Recv != nil && len(fd.Recv.List) == 1 && len(fd.Recv.List[0].Names) == 1 {
+			return fd.Recv.List[0].Names[0].Name
+		}
+		return ""
+	}
+	firstParam := func(fd *ast.FuncDecl) string {
+		if fd.Type.Params != nil && len(fd.Type.Params.List) > 0 && len(fd.Type.Params.List[0].Names) > 0 {
+			return fd.Type.Params.List[0].Names[0].Name
+		}
+		return ""
+	}
+	cd := findFunc(f, "ChildDir", "DirStructure")
+	en := findFunc(f, "ensure", "DirStructure")
+	if cd == nil || en == nil || cd.Body == nil || en.Body == nil {
+		die("utils/structure.go: ChildDir / ensure not found")
+	}
+	rv, name := recvName(cd), firstParam(cd)
+	if rv == "" || name == "" {
+		die("utils/structure.go: ChildDir has no receiver name / name parameter")
+	}
+	keyIsName, pathJoinsName = true, false
+	nIndex := 0
+	ast.Inspect(cd.Body, func(n ast.Node) bool {
+		switch x := n.(type) {
+		case *ast.IndexExpr:
+			if exprString(fset, x.X) == rv+".Children" {
+				nIndex++
+				if exprString(fset, x.Index) != name {
+					keyIsName = false
+				}
+			}
+		case *ast.AssignStmt:
+			for _, l := range x.Lhs {
+				if id, ok := l.(*ast.Ident); ok && id.Name == name {
+					keyIsName = false // the name parameter is overwritten
+				}
+			}
+		case *ast.RangeStmt:
+			if strings.Contains(exprString(fset, x.X), "Children") {
+				keyIsName = false
+			}
+		case *ast.KeyValueExpr:
+			if id, ok := x.Key.(*ast.Ident); ok && id.Name == "Path" {
+				pathJoinsName = exprString(fset, x.Value) == "filepath.Join("+rv+".Path, "+name+")"
+			}
+		}
+		return true
+	})
+	if nIndex == 0 {
+		keyIsName = false
+	}
+	rv2, elems := recvName(en), firstParam(en)
+	nChildren, okLookup := 0, false
+	ast.Inspect(en.Body, func(n ast.Node) bool {
+		switch x := n.(type) {
+		case *ast.SelectorExpr:
+			if x.Sel.Name == "Children" {
+				nChildren++
+			}
+		case *ast.IndexExpr:
+			if exprString(fset, x.X) == rv2+".Children" && exprString(fset, x.Index) == elems+"[0]" {
+				okLookup = true
+			}
+		}
+		return true
+	})
+	ensureByElement = nChildren == 1 && okLookup
+	return
+}
+
 // genPaths extracts the string constants the path scope checks of C18 depend on.
 func genPaths() {
 	api := stringConst("api/endpoints.go", "apiV1Path")
@@ -57,6 +136,13 @@ func genPaths() {
 	fmt.Fprintf(&sb, "def apiV1Path : List UInt8 := %s -- %q\n\n", pathsLeanBytes(api), api)
 	sb.WriteString("/-- `zipSuffix` (updater/unpacking.go). -/\n")
 	fmt.Fprintf(&sb, "def zipSuffix : List UInt8 := %s -- %q\n\n", pathsLeanBytes(zip), zip)
+	k, pj, eb := dirStructureShape()
+	sb.WriteString("/-- utils/structure.go `ChildDir`: `Children` is indexed with the name parameter only (which is never reassigned). -/\n")
+	fmt.Fprintf(&sb, "def childDirKeyIsGivenName : Bool := %v\n\n", k)
+	sb.WriteString("/-- utils/structure.go `ChildDir`: the child's `Path` is `filepath.Join(ds.Path, <name parameter>)`. -/\n")
+	fmt.Fprintf(&sb, "def childDirPathJoinsGivenName : Bool := %v\n\n", pj)
+	sb.WriteString("/-- utils/structure.go `ensure`: `Children` is read exactly once, as `Children[pathDirs[0]]`. -/\n")
+	fmt.Fprintf(&sb, "def ensureLooksUpByElement : Bool := %v\n\n", eb)
 	sb.WriteString("end PB.Gen.Paths\n")
 	write("Paths.lean", sb.String())
 }
